@@ -11,6 +11,9 @@
 (***************************************************************************)
 EXTENDS SpecialDefs
 
+CONSTANTS Grid1,    \* regular grid: points per box of a one-variable schema (0 = no grid cases)
+          Grid2     \* regular grid: Grid2 x Grid2 points per box of a two-variable schema
+
 VARIABLES g, f, i
 
 ValueFamilies == <<
@@ -45,6 +48,7 @@ ValueFamilies == <<
   [name |-> "mlgamma.closed",  n |-> Len(MlgKs) * 7],
   [name |-> "mgamma.closed",   n |-> Len(MlgKs) * 7],
   [name |-> "gammap.tiny",     n |-> 4],
+  [name |-> "gammalower.tiny", n |-> 4],
   [name |-> "gammap.edge",     n |-> Len(GammaEdgeList)],
   [name |-> "logerfc.asym",    n |-> Len(LogErfcAsymX)],
   [name |-> "besseli.gen",     n |-> Len(BesGenXs)],
@@ -85,6 +89,7 @@ ValueCase(name, k) ==
     [] name = "lgamma.neghalf"  -> LgammaValue("neghalf", GammaNegHalfN[k])
     [] name = "mlgamma.closed"  -> LET kk == MlgKs[((k - 1) \div 7) + 1] IN MlgammaClosed(MlgX2(kk)[((k - 1) % 7) + 1], kk)
     [] name = "gammap.tiny"     -> GammaTiny(<<1, 2, 3, 5>>[k])
+    [] name = "gammalower.tiny" -> GammaLowerTiny(<<1, 2, 3, 5>>[k])
     [] name = "gammap.edge"     -> GammaEdge(GammaEdgeList[k])
     [] name = "logerfc.asym"    -> LogErfcAsym(k)
     [] name = "besseli.gen"     -> BesGen(BesGenXs[k])
@@ -93,50 +98,32 @@ ValueCase(name, k) ==
     [] name = "class"           -> ClassCase(k)
     [] name = "mgamma.closed"   -> LET kk == MlgKs[((k - 1) \div 7) + 1] IN MgammaClosed(MlgX2(kk)[((k - 1) % 7) + 1], kk)
 
-GFam(what)  == [a \in 1..Len(GIntAs)  |-> [s |-> GIntS(what, GIntAs[a]),   p |-> GIntP(GIntAs[a])]]
-GHFam(what) == [a \in 1..Len(GHalfMs) |-> [s |-> GHalfS(what, GHalfMs[a]), p |-> GHalfP(GHalfMs[a])]]
-IdFamilies == <<
-  [s |-> DigammaRecS,  p |-> DigammaRecP],
-  [s |-> DigammaReflS, p |-> DigammaReflP],
-  [s |-> DigammaDupS,  p |-> DigammaDupP],
-  [s |-> TrigammaRecS,  p |-> TrigammaRecP],
-  [s |-> TrigammaReflS, p |-> TrigammaReflP],
-  [s |-> TrigammaDupS,  p |-> TrigammaDupP],
-  [s |-> GammaRecS,  p |-> GammaRecP],
-  [s |-> GammaReflS, p |-> GammaReflP],
-  [s |-> GammaDupS,  p |-> GammaDupP],
-  [s |-> LgammaRecS, p |-> LgammaRecP],
-  [s |-> LgammaLogS, p |-> LgammaLogP],
-  [s |-> PolyDelegateS(0), p |-> PolyDelegateP],
-  [s |-> PolyDelegateS(1), p |-> PolyDelegateP]
->> \o [a \in 1..Len(PolyNs) |-> [s |-> PolyRecS(PolyNs[a]),  p |-> PolyRecP(PolyNs[a])]]
-   \o [a \in 1..Len(PolyNs) |-> [s |-> PolyReflS(PolyNs[a]), p |-> PolyReflP(PolyNs[a])]]
-   \o [a \in 1..Len(PolyNs) |-> [s |-> PolyDupS(PolyNs[a]),  p |-> PolyDupP(PolyNs[a])]]
-   \o [a \in 1..3 |-> [s |-> MlgammaSumS(a + 1), p |-> MlgammaSumP(a + 1)]]
-   \o [a \in 1..3 |-> [s |-> MgammaLogS(a + 1),  p |-> MgammaLogP(a + 1)]]
-   \o GFam("p") \o GFam("q") \o GFam("lower") \o GFam("upper") \o GFam("d1") \o GFam("d2")
-   \o GHFam("p") \o GHFam("q") \o GHFam("d1")
-   \o << [s |-> GammaPQS, p |-> GPointsAll], [s |-> GammaRecPS, p |-> GPointsAll], [s |-> GammaLUS, p |-> GPointsSmall],
-          [s |-> GammaLPS, p |-> GPointsSmall], [s |-> GammaUQS, p |-> GPointsSmall], [s |-> GammaD1S, p |-> GPointsSmall],
-          [s |-> GammaD2S, p |-> GPointsSmall],
-          [s |-> LogErfcSmallS, p |-> LogErfcSmallP], [s |-> LogErfcMidS, p |-> LogErfcMidP],
-          [s |-> BesRecS, p |-> BesRecP], [s |-> LogBesLogS, p |-> LogBesLogP], [s |-> LogBesRecS, p |-> LogBesRecP],
-          [s |-> BesNegIntS, p |-> BesNegIntP],
-          [s |-> LogAddLinS, p |-> LogAddLinP], [s |-> LogSubLinS, p |-> LogSubLinP],
-          [s |-> LogAddRatS, p |-> RatPairs], [s |-> LogSubRatS, p |-> RatSubPairs] >>
-   \o [a \in 1..Len(BesHalfNs) |-> [s |-> BesHalfS(BesHalfNs[a]), p |-> BesHalfP(BesHalfNs[a])]]
-   \o [a \in 1..6 |-> [s |-> LogBesHalfS(a - 2), p |-> LogBesHalfP(a - 2)]]
-
 CaseOf(gg, ff, k) ==
   IF gg = 1 THEN ValueCase(ValueFamilies[ff].name, k)
-  ELSE IF gg = 2 THEN InstCase(IdFamilies[ff].s, IdFamilies[ff].p[k], "")
-  ELSE IdFamilies[ff].s
+  ELSE LET loc == Locate(ff, 1) IN
+       IF gg = 2 THEN InstCase(SchemaOf(loc[1], loc[2]), PointAt(loc[1], loc[2], k), "")
+       ELSE IF gg = 4 THEN LET S == SchemaOf(loc[1], loc[2]) IN GridCase(S, GridPoint(S, k, Grid1, Grid2))
+       ELSE SchemaOf(loc[1], loc[2]) @@ [idx |-> ff]
 
 Init == \/ /\ g = 1 /\ f \in 1..Len(ValueFamilies) /\ i \in 1..ValueFamilies[f].n
-        \/ /\ g = 2 /\ f \in 1..Len(IdFamilies) /\ i \in 1..Len(IdFamilies[f].p)
-        \/ /\ g = 3 /\ f \in 1..Len(IdFamilies) /\ i = 1
+        \/ /\ g = 2 /\ f \in 1..NIdFam /\ i \in 1..PointCount(Locate(f, 1)[1], Locate(f, 1)[2])
+        \/ /\ g = 3 /\ f \in 1..NIdFam /\ i = 1
+        \/ /\ Grid1 > 0 /\ g = 4 /\ f \in 1..NIdFam
+           /\ i \in 1..GridCount(SchemaOf(Locate(f, 1)[1], Locate(f, 1)[2]), Grid1, Grid2)
 Next == UNCHANGED <<g, f, i>>
 Spec == Init /\ [][Next]_<<g, f, i>>
+
+(* model-level sanity of the contract's own tables (checked by TLC before anything is printed) *)
+ASSUME Bern(0) = ROne /\ Bern(1) = Rat(-1, 2) /\ Bern(2) = Rat(1, 6) /\ Bern(4) = Rat(-1, 30) /\ Bern(6) = Rat(1, 42)
+ASSUME Bern(12) = Rat(-691, 2730) /\ Bern(14) = Rat(7, 6) /\ Bern(16) = Rat(-3617, 510)
+ASSUME \A n \in 1..7 : RIsZero(Bern(2 * n + 1))
+(* zeta(2n) = r_n pi^(2n) with r_1 = 1/6, r_2 = 1/90, r_3 = 1/945 *)
+ZetaCoef(m2) == RDiv(RMul([n |-> RAbs(Bern(m2).n), d |-> Bern(m2).d], RInt(2^(m2 - 1))), RInt(FactI(m2)))
+ASSUME ZetaCoef(2) = Rat(1, 6) /\ ZetaCoef(4) = Rat(1, 90) /\ ZetaCoef(6) = Rat(1, 945) /\ ZetaCoef(8) = Rat(1, 9450)
+ASSUME Harm(4) = Rat(25, 12) /\ OddHarm(3) = Rat(23, 15) /\ Binom(10, 3) = 120 /\ Binom(33, 16) = 1166803110
+(* derivatives of cot: P_1 = -(1 + t^2), P_2 = 2t + 2t^3, P_3 = -2 - 8t^2 - 6t^4 *)
+ASSUME CotPoly(1) = <<-1, 0, -1>> /\ CotPoly(2) = <<0, 2, 0, 2>> /\ CotPoly(3) = <<-2, 0, -8, 0, -6>>
+ASSUME DFact(4) = 105 /\ AsymCoef(1) = Rat(-1, 2) /\ AsymCoef(2) = Rat(3, 4) /\ AsymCoef(3) = Rat(-15, 8)
 
 Emit == PrintT(ToJson(CaseOf(g, f, i)))
 =============================================================================
